@@ -18,7 +18,12 @@ RULE = ("corr: real EvolvedMF rows (no escape) at rtol=atol=1e-10 vs the Lean cl
         "(converges); distinct = distinct (configuration, age)")
 
 NMIN = real.DOC_DEFAULTS["Nmin"]
-TIGHT = dict(rtol=1e-10, atol=1e-10, nsteps=10 ** 7)      # 1e-12 is below what dopri5 reaches in double precision (it gives up)
+# tightened integrator: 1e-12 first (dopri5 sometimes gives up there: the model then reports converged=False), else 1e-10.
+# The right-hand side is discontinuous wherever the remnant of the turn-off star changes bin (the tabulated BH relations zigzag across
+# bin edges): at 1e-10 dopri5 books up to ~1e-4 of a class into the neighbouring bin (it converges to the closed form under max_step=1e-3
+# or at 1e-12), so the budget depends on which tolerance was reached.
+TIGHT = dict(rtol=1e-12, atol=1e-12, nsteps=10 ** 7)
+TIGHT2 = dict(rtol=1e-10, atol=1e-10, nsteps=10 ** 7)
 
 
 # ------------------------------------------------------------------ IMF density, independent of the library
@@ -74,6 +79,10 @@ def worker(job):
     try:
         f0 = build(cfg)
         f1 = build(cfg, **TIGHT)
+        res["tight_level"] = 12
+        if not f1.converged:
+            f1 = build(cfg, **TIGHT2)
+            res["tight_level"] = 10
     except Exception as e:
         res["error"] = f"{type(e).__name__}: {e}"[:200]
         return res
@@ -243,7 +252,8 @@ def corr_one(res, outs):
                 for j, (x, y) in enumerate(zip(real_v, mod_v)):
                     # masses: the tabulated BH relations have a kink every 0.1 Msun, which costs dopri5 accuracy (1.5e-5 measured at
                     # rtol=1e-10, converging to the model under max_step=1e-3)
-                    e = abs(x - y) / ((3e-6 if q == "N" else 1e-4) * sc + 1e-6)
+                    loose = res.get("tight_level", 12) == 10
+                    e = abs(x - y) / (((6e-4 if loose else 3e-6) if q == "N" else (2e-3 if loose else 1e-4)) * sc + 1e-6)
                     worst = max(worst, e)
                     if e > 1 and bad is None:
                         bad = {"t": t, "what": q + c, "bin": j, "real": repr(x), "model": repr(y), "class_total": repr(sc)}
@@ -290,9 +300,9 @@ def corr(ctx):
 
 
 # ------------------------------------------------------------------ the property's predicate on the real rows
-# integrator accuracy at default (rtol=atol=1e-5: up to ~1.5 % of a bin was measured just after its turn-off) / tightened tolerance,
+# integrator accuracy at default (rtol=atol=1e-5: 1.5 % of a bin measured just after its turn-off on coarse layouts, 8 % on fine ones) / tightened tolerance,
 # relative to the bin's initial content (stars) or the class total (remnants)
-REL = {"d": 5e-2, "t": 1e-5}
+REL = {"d": 15e-2, "t": 1e-5}
 
 
 def check_rows(res):
@@ -323,7 +333,10 @@ def check_rows(res):
                     sc = class_scale(ref)
                     for j, (x, y) in enumerate(zip(real_v, ref)):
                         room = NMIN * k * f * (up[j] if q == "M" else 1.0)
-                        e = (abs(x - y) - room) / (REL[tag] * (1.0 if q == "N" or tag == "d" else 10.0) * sc + 1e-6)
+                        rel = REL[tag] * (1.0 if q == "N" or tag == "d" else 10.0)
+                        if tag == "t" and res.get("tight_level", 12) == 10:
+                            rel *= 100.0
+                        e = (abs(x - y) - room) / (rel * sc + 1e-6)
                         worst[tag] = max(worst[tag], e)
                         if e > 1:
                             return {"clause": "remnants per bin = retained IMF progenitors above the turn-off whose remnant falls in that bin",
